@@ -107,6 +107,12 @@ def run_one(tape, cfg):
             n0 = 11 + tape.draw(4, "n0big")
             srcs[0]["shape"] = (n0,) + tuple(srcs[0]["shape"][1:])
             srcs[0]["chunks"] = ((1,) * n0,) + tuple(srcs[0]["chunks"][1:])
+        zero_chunk = npy and not many_blocks and tape.chance(1, 4, "zero_chunk")
+        if zero_chunk:
+            # a zero-length block along the stacking axis (e.g. a boolean filter that hit nothing there)
+            c0 = list(srcs[0]["chunks"][0])
+            c0.insert(tape.draw(len(c0) + 1, "zpos"), 0)
+            srcs[0]["chunks"] = (tuple(c0),) + tuple(srcs[0]["chunks"][1:])
     wl = {"ndim": ndim, "shared": shared, "g": g, "advertise_chunks": advertise, "lock": lock_kind, "compute": compute, "separate_calls": separate,
           "return_stored": return_stored, "regions": use_regions, "nworkers": nworkers,
           "policy": policy, "sources": srcs, "npy": npy}
@@ -148,6 +154,9 @@ def run_one(tape, cfg):
                 if many_blocks:
                     axis = 0
                     out.probe("npy_stack_many_blocks")
+                if zero_chunk:
+                    axis = 0
+                    out.probe("npy_stack_zero_length_block")
                 dx = da.from_array(x, chunks=srcs[0]["chunks"])
 
                 twin = tape.chance(1, 3, "twin_stack")
